@@ -15,7 +15,7 @@ import time
 
 from hypothesis import HealthCheck, Phase, given, seed as hseed, settings, strategies as st
 
-from vf import env
+from vf import env, hyp
 from vf.acc import Acc
 
 ID = "C10"
@@ -630,17 +630,7 @@ def run_shard(spec):
                 break
         return acc
 
-    @hseed(spec["seed"])
-    @settings(max_examples=spec["n"], database=None, deadline=None, derandomize=False,
-              phases=[Phase.generate], suppress_health_check=list(HealthCheck), report_multiple_bugs=False)
-    @given(rewrite_sets())
-    def go(case):
-        if time.time() - t0 > spec["budget_s"]:
-            acc.budget_exhausted = True
-            return
-        _one(acc, case)
-
-    go()
+    hyp.run(rewrite_sets(), lambda case: _one(acc, case), spec["n"], spec["seed"], spec["budget_s"], acc, chunk=400)
     return acc
 
 
